@@ -211,6 +211,11 @@ func materialise(g *graphCase, scheme int) (map[string]string, string) {
 		case "json":
 			fmt.Fprintf(&sb, `{"x":"m%d"}`+"\n", m)
 		case "esm":
+			if i < len(g.Modes) && g.Modes[i] == "babel" {
+				// a plain .js file is an ES module for Node (syntax detection) and for
+				// esbuild only if it has ES syntax: make that independent of the body
+				sb.WriteString("export {};\n")
+			}
 			for k, s := range g.Bodies[i] {
 				id := fmt.Sprintf("m%d.%d", m, k+1)
 				spec := ""
